@@ -257,7 +257,10 @@ class _SimView:
             self.backend.cancel(tid, 'abort')
 
     def __len__(self):
-        return self.backend.n_workers
+        # engines that have not registered yet: the view is empty although tasks will run
+        # (ELFI documents this state: set max_parallel_batches by hand)
+        rc = getattr(self.backend, 'reported_cores', None)
+        return self.backend.n_workers if rc is None else rc
 
 
 class SimIpp:
